@@ -1220,15 +1220,31 @@ pub struct State {
 }
 
 fn parse_nums(t: &[&str]) -> Vec<u128> {
-    t.iter()
-        .map(|x| {
-            if x.starts_with('-') {
-                x.parse::<i128>().unwrap() as u128
+    // a token is a number, or `v*c` (v repeated c times), or `a..b*c` (each of a, a+1, .., b-1 repeated c times): long
+    // inputs with many distinct symbols stay short on the command line
+    let one = |x: &str| -> u128 {
+        if x.starts_with('-') {
+            x.parse::<i128>().unwrap() as u128
+        } else {
+            x.parse::<u128>().unwrap()
+        }
+    };
+    let mut out = Vec::new();
+    for x in t {
+        if let Some((v, c)) = x.split_once('*') {
+            let c: usize = c.parse().unwrap();
+            if let Some((a, b)) = v.split_once("..") {
+                for s in one(a)..one(b) {
+                    out.extend(std::iter::repeat(s).take(c));
+                }
             } else {
-                x.parse::<u128>().unwrap()
+                out.extend(std::iter::repeat(one(v)).take(c));
             }
-        })
-        .collect()
+        } else {
+            out.push(one(x));
+        }
+    }
+    out
 }
 
 impl State {
